@@ -117,9 +117,8 @@ def r1_r2(ctx, cfg):
                sample="call dominated by Continue(send(..))")
 
 
-def r2_send(ctx, cfg):
+def r2_send(ctx, cfg, R="C05.R2"):
     F, P = cfg.facts, cfg.prov
-    R = "C05.R2"
     f = ctx.need_fn(R, SEND)
     if f is None:
         return
